@@ -19,7 +19,7 @@ type mutCtx struct {
 }
 
 func (x *mutCtx) intn(lo, hi int, l string) int { return rapid.IntRange(lo, hi).Draw(x.t, l) }
-func (x *mutCtx) pct(p int, l string) bool       { return rapid.IntRange(0, 99).Draw(x.t, l) < p }
+func (x *mutCtx) pct(p int, l string) bool      { return rapid.IntRange(0, 99).Draw(x.t, l) < p }
 func (x *mutCtx) pick(xs []string, l string) string {
 	return rapid.SampledFrom(xs).Draw(x.t, l)
 }
@@ -725,6 +725,13 @@ func shapeFromNumber(n int) []string {
 
 const numShapes = 1 + 10 + 100 + 1000 + 10000
 
+// respellPool holds types that have a second spelling (see eng.Respell).
+var respellPool = []*Type{
+	Slice(Basic("uint8")), Basic("uint8"), Basic("int32"), Map(Basic("int32")), Ptr(Basic("uint8")), Array(4, Basic("uint8")),
+	{K: "ifacelit"}, Slice(&Type{K: "ifacelit"}), Func(Basic("int")), Func(Basic("string")), Slice(Func(Basic("uint8"))), Chan(0, Basic("int32")),
+	{K: "structlit", Fields: []LitField{{Name: "A", T: Basic("uint8")}}},
+}
+
 func genC09() *rapid.Generator[*Spec] {
 	return rapid.Custom(func(t *rapid.T) *Spec {
 		s := baseWF(t, WFOpts{})
@@ -818,10 +825,45 @@ func genC09() *rapid.Generator[*Spec] {
 			fi := funcs[x.intn(0, len(funcs)-1, "func")]
 			it := &s.Items[fi]
 			pi := x.intn(0, len(it.Params)-1, "param")
+			how := x.pick([]string{"same", "copy", "alias", "ptr-control", "variadic-elem", "respell", "respell"}, "dupflavour")
+			if how == "respell" {
+				// identical types spelled differently (byte/uint8, rune/int32,
+				// any/interface{}, named function results): pick a parameter
+				// that has such a component, if the program has one
+				type cand struct{ f, p int }
+				var cs []cand
+				for _, f := range funcs {
+					for p, pt := range s.Items[f].Params {
+						if _, ok := Respell(pt); ok {
+							cs = append(cs, cand{f, p})
+						}
+					}
+				}
+				if len(cs) > 0 {
+					c := cs[x.intn(0, len(cs)-1, "respellparam")]
+					fi, pi = c.f, c.p
+					it = &s.Items[fi]
+				} else {
+					how = "respell-fresh"
+				}
+			}
 			orig := it.Params[pi]
-			how := x.pick([]string{"same", "copy", "alias", "ptr-control", "variadic-elem"}, "dupflavour")
 			var dup *Type
 			switch how {
+			case "respell-fresh":
+				// two new parameters of one type in two spellings
+				base := respellPool[x.intn(0, len(respellPool)-1, "respellbase")]
+				dup, _ = Respell(base)
+				if x.pct(50, "respellorder") {
+					base, dup = dup, base
+				}
+				if it.Variadic {
+					it.Params = append([]*Type{base}, it.Params...)
+				} else {
+					it.Params = append(it.Params, base)
+				}
+			case "respell":
+				dup, _ = Respell(orig)
 			case "same":
 				dup = orig
 			case "copy": // the same type written out a second time (a separate type expression)
@@ -864,9 +906,28 @@ func genC09() *rapid.Generator[*Spec] {
 			ins := m.StructInputs(it)
 			f0 := ins[x.intn(0, len(ins)-1, "field")]
 			fn := x.fresh("FD")
+			how := x.pick([]string{"same", "alias", "ptr-control", "respell"}, "dupflavour")
+			if how == "respell" {
+				how = "respell-fresh"
+				for _, f := range ins {
+					if _, ok := Respell(f.T); ok {
+						f0, how = f, "respell"
+						break
+					}
+				}
+			}
 			ft := f0.T
-			how := x.pick([]string{"same", "alias", "ptr-control"}, "dupflavour")
 			switch how {
+			case "respell-fresh":
+				base := respellPool[x.intn(0, len(respellPool)-1, "respellbase")]
+				ft, _ = Respell(base)
+				fn0 := x.fresh("FE")
+				d.Fields = append(d.Fields, SField{Name: fn0, T: base})
+				if !it.Star {
+					it.Fields = append(it.Fields, fn0)
+				}
+			case "respell":
+				ft, _ = Respell(ft)
 			case "alias":
 				s.Decls = append(s.Decls, Decl{Pkg: typeMinPkg(s, ft, len(s.Pkgs)-1), Name: x.fresh("FA"), Form: "alias", Under: ft})
 				ft = Named(len(s.Decls) - 1)
@@ -1109,7 +1170,9 @@ func init() {
 		}, true, 400, 2500)
 	mutProperty("C11", "exploration",
 		"a well-formed base program containing bindings (value/pointer receivers, embedded and unnamed interfaces, other packages; concrete type provided by function, struct provider, value, argument, field, nested set) with one binding edited: a method dropped, receivers made pointer receivers, self binding, binding moved into a set that does not provide the concrete type, concrete type's source removed, *T bound where only T is provided (and vice versa), binding removed (only the implementing type stays provided), bound to a non-implementing interface type. Oracle: accept iff the model's binding validity holds (Go method-set rule); accepted programs are compiled and executed and every consumer of I and of C must see the same instance (C02 oracle). Non-trivial = edited binding; distinct by program hash.",
-		genC11, "", func(e *ProgEval, x expectation) bool { return strings.HasPrefix(e.Spec.Note, "C11 ") && e.Spec.Note != "C11 nobind" }, true, 400, 2500)
+		genC11, "", func(e *ProgEval, x expectation) bool {
+			return strings.HasPrefix(e.Spec.Note, "C11 ") && e.Spec.Note != "C11 nobind"
+		}, true, 400, 2500)
 }
 
 // c09Exhaustive enumerates every result-list shape of length 0-3 (1111
